@@ -16,36 +16,48 @@ from wsimod.nodes.nodes import Node
 class _Nb(Node):
     """a neighbour of a registered type whose handlers are a tank or a script (K.FakeNode)"""
 
-    def __init__(self, name, part, spec):
+    def __init__(self, name, part, spec, tagged=False):
         super().__init__(name)
         self.fk = K.FakeNode(name, part, spec)
-        self.push_set_handler = {"default": lambda v: self.fk.push_set(v)}
-        self.push_check_handler = {"default": lambda v=None: self.fk.push_check(v)}
-        self.pull_set_handler = {"default": lambda v: self.fk.pull_set(v)}
-        self.pull_check_handler = {"default": lambda v=None: self.fk.pull_check(v)}
+        real = {"push_set": lambda v: self.fk.push_set(v), "push_check": lambda v=None: self.fk.push_check(v),
+                "pull_set": lambda v: self.fk.pull_set(v), "pull_check": lambda v=None: self.fk.pull_check(v)}
+        if tagged:
+            # like Land: the default tag is denied, only the tag "alt" is served
+            self.push_set_handler = {"default": self.push_set_deny, "alt": real["push_set"]}
+            self.push_check_handler = {"default": self.push_check_deny, "alt": real["push_check"]}
+            self.pull_set_handler = {"default": self.pull_set_deny, "alt": real["pull_set"]}
+            self.pull_check_handler = {"default": self.pull_check_deny, "alt": real["pull_check"]}
+        else:
+            self.push_set_handler = {"default": real["push_set"], "alt": real["push_set"]}
+            self.push_check_handler = {"default": real["push_check"], "alt": real["push_check"]}
+            self.pull_set_handler = {"default": real["pull_set"], "alt": real["pull_set"]}
+            self.pull_check_handler = {"default": real["pull_check"], "alt": real["pull_check"]}
 
 
-class VerifNbT0(_Nb):
+# class names chosen so that each is a substring of the next: a string type filter must still match exactly
+class VerifNb(_Nb):
     pass
 
 
-class VerifNbT1(_Nb):
+class VerifNbX(_Nb):
     pass
 
 
-class VerifNbT2(_Nb):
+class VerifNbXY(_Nb):
     pass
 
 
-TYPES = [VerifNbT0, VerifNbT1, VerifNbT2]
+TYPES = [VerifNb, VerifNbX, VerifNbXY]
 
 
 def rand_ot(r):
     c = r.random()
     if c < 0.45:
         return None
-    if c < 0.7:
+    if c < 0.6:
         return [r.randint(0, 2)]
+    if c < 0.78:
+        return ("str", r.randint(0, 2))        # a single type name given as a plain string
     return r.sample([0, 1, 2], 2)
 
 
@@ -91,27 +103,32 @@ class StarRun:
         self.hub = Node("hub")
         self.outs, self.ins = [], []
         for i, a in enumerate(c["outs"]):
-            nb = TYPES[a["ty"]](f"o{i}", part, a["nb"])
+            nb = TYPES[a["ty"]](f"o{i}", part, a["nb"], tagged=a.get("tagged", False))
             arc = arcs.Arc(name=f"ao{i}", in_port=self.hub, out_port=nb, capacity=Ex(a["cap"]), preference=Ex(a["pref"]))
             self.outs.append((arc, nb))
         for i, a in enumerate(c["ins"]):
-            nb = TYPES[a["ty"]](f"i{i}", part, a["nb"])
+            nb = TYPES[a["ty"]](f"i{i}", part, a["nb"], tagged=a.get("tagged", False))
             arc = arcs.Arc(name=f"ai{i}", in_port=nb, out_port=self.hub, capacity=Ex(a["cap"]), preference=Ex(a["pref"]))
             self.ins.append((arc, nb))
         self.msgs = 0
 
     def ot(self, ot):
-        return None if ot is None else [TYPES[t].__name__ for t in ot]
+        if ot is None:
+            return None
+        if len(ot) == 2 and ot[0] == "str":
+            return TYPES[ot[1]].__name__
+        return [TYPES[t].__name__ for t in ot]
 
     def do(self, op):
         """returns (reply vqip dict or None, message flag)"""
         p, k = self.part, op[0]
         buf = io.StringIO()
         with contextlib.redirect_stdout(buf):
+            tag = self.c.get("tag", "default")
             if k == "push":
-                r = self.hub.push_distributed(p.d(op[1]), of_type=self.ot(op[2]))
+                r = self.hub.push_distributed(p.d(op[1]), of_type=self.ot(op[2]), tag=tag)
             elif k == "pull":
-                r = self.hub.pull_distributed({"volume": Ex(op[1])}, of_type=self.ot(op[2]))
+                r = self.hub.pull_distributed({"volume": Ex(op[1])}, of_type=self.ot(op[2]), tag=tag)
             elif k == "pushcheck":
                 r = self.hub.push_check_basic(None if op[1] is None else {"volume": Ex(op[1])}, of_type=self.ot(op[2]))
             elif k == "pullcheck":
@@ -151,7 +168,16 @@ def run_star_impl(c):
 IDLE = "(NS (mkS [0] [0] 0 vzero))"
 
 
+def ot_list(ot):
+    if ot is None:
+        return None
+    if len(ot) == 2 and ot[0] == "str":
+        return [ot[1]]
+    return list(ot)
+
+
 def lit_ot(ot):
+    ot = ot_list(ot)
     return "None" if ot is None else "(Some [" + "; ".join(f"{t}%nat" for t in ot) + "])"
 
 
@@ -199,6 +225,11 @@ def monitor_c18(rep, n, maxops=8, pid="C18"):
     stats = {"ops": 0, "zero_division": 0, "proportional_checked": 0, "messages": 0, "fan1": 0}
     for ci in range(n):
         c = gen_star_case(r, maxops, maxfan=8)
+        if r.random() < 0.4:
+            # requests carry a non-default tag and some neighbours serve only that tag (as Land does)
+            c["tag"] = "alt"
+            for a in c["outs"] + c["ins"]:
+                a["tagged"] = r.random() < 0.6
         install_exact()
         G.set_partition(c["adds"], c["nons"])
         try:
@@ -208,12 +239,13 @@ def monitor_c18(rep, n, maxops=8, pid="C18"):
                 k = op[0]
                 arcs = R.outs if k in ("push", "pushcheck") else R.ins
                 sel = [j for j, a in enumerate(c["outs"] if arcs is R.outs else c["ins"])
-                       if op[0] != "end" and (op[2] is None or a["ty"] in op[2])]
+                       if op[0] != "end" and (op[2] is None or a["ty"] in ot_list(op[2]))]
                 before = [(_cv(part, a.vqip_in), frac(a.flow_in), nb.fk.enc()) for a, nb in arcs]
                 checks = None
                 if k in ("push", "pull"):
                     with contextlib.redirect_stdout(io.StringIO()):
-                        checks = [frac((a.send_push_check() if k == "push" else a.send_pull_check())["volume"]) for a, nb in arcs]
+                        tg = c.get("tag", "default")
+                        checks = [frac((a.send_push_check(tag=tg) if k == "push" else a.send_pull_check(tag=tg))["volume"]) for a, nb in arcs]
                 try:
                     rr, msg = R.do(op)
                 except ZeroDivisionError:
@@ -252,7 +284,7 @@ def monitor_c18(rep, n, maxops=8, pid="C18"):
                     stats["fan1"] += 1
                 elif not msg and short > EPS:
                     with contextlib.redirect_stdout(io.StringIO()):
-                        feas = R.hub.get_connected(direction=k, of_type=R.ot(op[2]))["avail"]
+                        feas = R.hub.get_connected(direction=k, of_type=R.ot(op[2]), tag=c.get("tag", "default"))["avail"]
                     if frac(feas) > EPS:
                         bad.append(f"{k}: fell short by {short} with {frac(feas)} still feasible and no iteration-limit message")
                 # proportional shares when everything fits in the first round
